@@ -572,14 +572,14 @@ pub fn family(name: &str, s: usize) -> Graph {
 
 pub const FAMILIES: [&str; 10] = ["chain", "even_ring", "odd_ring", "mutual_pairs", "ladder", "bipartite", "star", "grid", "tree", "chord_ring"];
 
-struct Big {
-    n: usize,
-    atk: Vec<Vec<usize>>, // attackers of each argument
-    tgt: Vec<Vec<usize>>,
+pub struct Big {
+    pub n: usize,
+    pub atk: Vec<Vec<usize>>, // attackers of each argument
+    pub tgt: Vec<Vec<usize>>,
 }
 
 impl Big {
-    fn new(g: &Graph) -> Self {
+    pub fn new(g: &Graph) -> Self {
         let mut atk = vec![vec![]; g.n];
         let mut tgt = vec![vec![]; g.n];
         for &(a, b) in &g.att {
@@ -588,14 +588,14 @@ impl Big {
         }
         Big { n: g.n, atk, tgt }
     }
-    fn set(&self, v: &[usize]) -> Vec<bool> {
+    pub fn set(&self, v: &[usize]) -> Vec<bool> {
         let mut s = vec![false; self.n];
         for &x in v {
             s[x] = true;
         }
         s
     }
-    fn attacked_by(&self, s: &[bool]) -> Vec<bool> {
+    pub fn attacked_by(&self, s: &[bool]) -> Vec<bool> {
         let mut r = vec![false; self.n];
         for a in 0..self.n {
             if s[a] {
@@ -606,27 +606,27 @@ impl Big {
         }
         r
     }
-    fn conflict_free(&self, s: &[bool]) -> bool {
+    pub fn conflict_free(&self, s: &[bool]) -> bool {
         let p = self.attacked_by(s);
         (0..self.n).all(|a| !(s[a] && p[a]))
     }
-    fn defended(&self, s: &[bool]) -> Vec<bool> {
+    pub fn defended(&self, s: &[bool]) -> Vec<bool> {
         let p = self.attacked_by(s);
         (0..self.n).map(|a| self.atk[a].iter().all(|&b| p[b])).collect()
     }
-    fn admissible(&self, s: &[bool]) -> bool {
+    pub fn admissible(&self, s: &[bool]) -> bool {
         let d = self.defended(s);
         self.conflict_free(s) && (0..self.n).all(|a| !s[a] || d[a])
     }
-    fn complete(&self, s: &[bool]) -> bool {
+    pub fn complete(&self, s: &[bool]) -> bool {
         let d = self.defended(s);
         self.conflict_free(s) && (0..self.n).all(|a| s[a] == d[a])
     }
-    fn stable(&self, s: &[bool]) -> bool {
+    pub fn stable(&self, s: &[bool]) -> bool {
         let p = self.attacked_by(s);
         self.conflict_free(s) && (0..self.n).all(|a| s[a] || p[a])
     }
-    fn grounded(&self) -> Vec<bool> {
+    pub fn grounded(&self) -> Vec<bool> {
         let mut s = vec![false; self.n];
         loop {
             let d = self.defended(&s);
@@ -647,13 +647,13 @@ fn mask_to_indices(out: &Out) -> Option<Vec<usize>> {
 
 /// big frameworks need their own observation (sets do not fit in a 32-bit mask)
 #[derive(Clone, Debug, PartialEq, Eq)]
-enum BigOut {
+pub enum BigOut {
     Ext(Option<Vec<usize>>),
     Status(bool, Option<Vec<usize>>),
     Panic(String),
 }
 
-fn big_query<T: LabelType>(b: &Built<T>, kind: QKind, sem: Sem, arg: Option<usize>, cert: bool) -> BigOut {
+pub fn big_query<T: LabelType>(b: &Built<T>, kind: QKind, sem: Sem, arg: Option<usize>, cert: bool) -> BigOut {
     use crate::staticq::make_solver;
     let enc = *encoder_menu(kind, sem, false).first().unwrap();
     let idx = |v: Vec<&crustabri::aa::Argument<T>>| -> Vec<usize> {
@@ -750,7 +750,7 @@ fn big_answers<T: LabelType>(b: &Built<T>, args: &[usize]) -> BigAnswers {
     a
 }
 
-fn status_of(o: &BigOut) -> Option<bool> {
+pub fn status_of(o: &BigOut) -> Option<bool> {
     match o {
         BigOut::Ext(e) => Some(e.is_some()),
         BigOut::Status(b, _) => Some(*b),
